@@ -3,7 +3,7 @@ From Coq Require Import List Arith Bool NArith Lia.
 From ZV Require Import RaftAbs.ListFacts RaftAbs.Model RaftAbs.Inv RaftAbs.Pres1 RaftAbs.Pres2 RaftAbs.Pres3.
 Import ListNotations.
 
-Theorem inv1_step s s' : inv1 s -> Overlap s' -> step s s' -> inv1 s'.
+Theorem inv1_step_nc s s' : inv1 s -> NoClash s s' -> step s s' -> inv1 s'.
 Proof.
   intros I O H. constructor.
   - apply (pres_G1 s s' I H).
@@ -29,6 +29,9 @@ Proof.
   - apply (pres_AN s s' I O H).
   - apply (pres_CV s s' I O H).
 Qed.
+
+Theorem inv1_step s s' : inv1 s -> Overlap s' -> step s s' -> inv1 s'.
+Proof. intros I O H. apply (inv1_step_nc s s' I (overlap_noclash s s' I O H) H). Qed.
 
 (* ---------- election safety ---------- *)
 
